@@ -74,6 +74,20 @@ def analyse_tu(tu):
                 if x.k == "CallExpr" and callee(x) == ("capi", "readCurrent"):
                     rc_nodes.append((nd, path(x.kids[1])))
                     stats["readcur_sites"] += 1
+        # the declaration is made on the *activated* node: readCurrent of a
+        # ghost declares nothing (cPersistence's readCurrent looks at the
+        # object's serial, which a ghost does not have yet)
+        acq = [(nd, path(nd.unit[1])) for nd in cfg.live_nodes() if nd.unit and nd.unit[0] == "ACQ"]
+        for r, rp in rc_nodes:
+            stats["readcur_active"] = stats.get("readcur_active", 0) + 1
+            if not any(a.id in dom[r.id] and a.id != r.id and ap == rp for a, ap in acq):
+                findings.append(dict(
+                    rule="READCUR-MUST", function=name, file=r.e.f, line=r.e.l,
+                    construct="readCurrent(%s) before %s is activated" % (rp, rp),
+                    detail="no activation (PER_USE / PER_USE_OR_RETURN) of %s "
+                           "dominates the readCurrent call: when the node is "
+                           "still a ghost the call declares nothing and the "
+                           "write that follows is not protected" % rp, path=[]))
         for call, cname, owner in descents:
             stats["descents"] += 1
             holder = None
